@@ -1,0 +1,9 @@
+//go:build verif
+
+package coder
+
+// Read-only view of an unexported constant for the verification harness
+// (/verif). Compiled only with -tags verif.
+
+// VerifMessageMaxLen is the largest body length getHeader encodes.
+const VerifMessageMaxLen = messageMaxLen
